@@ -355,6 +355,7 @@ def c06(ctx: core.Ctx, want_nis, want_thr, forms):
                        msg=f"Python decides by {forms['python']}, the C++ helper by {forms['cpp_helper']}")
     # template call site
     w = witness.Witness(ctx)
+    w.prefetch([witness.Valuation(True, True, True), witness.Valuation(True, True, False)])
     tpl = "py/formak/templates/sensor_model.hpp"
     n_sites = 0
     for flt in (True, False):
